@@ -1871,7 +1871,7 @@ func (p *parser) parseOperand(lhs, allowTuple, allowCmd bool) (x ast.Expr, isTup
 				p.next()
 			}
 			p.exprLev--
-			p.expect(token.RPAREN)
+			t.closing = p.expect(token.RPAREN) // (not the position of a preceding "...")
 			return t, true
 		}
 		p.exprLev--
